@@ -80,7 +80,7 @@ impl Protocol for App {
             let refused = tokio::task::block_in_place(|| producer.join()).unwrap_or(usize::MAX);
             let mut got: Vec<i64> = vec![];
             while got.len().saturating_add(refused) < self.msgs {
-                match tokio::time::timeout(Duration::from_millis(200), sock.recv_msg()).await {
+                match tokio::time::timeout(Duration::from_secs(2), sock.recv_msg()).await {
                     Ok(Ok(m)) => {
                         let b = m.to_vec();
                         got.push(if b.len() == 5 && b[0] as usize + ((b[1] as usize) << 8) == conn && b[4] == 0x5a { b[2] as i64 + ((b[3] as i64) << 8) } else { -1 });
